@@ -25,19 +25,28 @@ package fox
 //@ func parseWildcard props C03,C01
 //@   ensures result == nil || fresh(result)
 //@   ensures @C01 params-ok: keyOK(segment) ==> paramsOK(segment, result)
+//@   -- for any string at all: an entry ends inside the fragment or carries -1
+//@   ensures ends-in-range: forall k int :: {result[k]} 0 <= k && k < len(result) ==> result[k].end == -1 || (0 < result[k].end && result[k].end < len(segment))
 //@   loop 1: invariant params == nil || fresh(params)
+//@   loop 1: invariant ends-in-range: forall k int :: {params[k]} 0 <= k && k < len(params) ==> params[k].end == -1 || (0 < params[k].end && params[k].end < len(segment))
 //@   loop 1: invariant @C01 pos: 0 <= i && (state == stateDefault || state == stateParam || state == stateCatchAll) && (state != stateDefault ==> 0 < start && start <= i)
 //@   loop 1: invariant @C01 pos-ok: keyOK(segment) ==> (state == stateDefault ==> i <= len(segment)) && (state != stateDefault ==> i <= len(segment) && segment[start-1] == '{' && i <= nextClose(segment, start-1) && nextClose(segment, start-1) < len(segment) && segment[nextClose(segment, start-1)] == '}')
 //@   loop 1: invariant @C01 count: keyOK(segment) ==> (state == stateDefault ==> len(params) == cnt(segment, i)) && (state != stateDefault ==> len(params) + 1 == cnt(segment, i))
 //@   loop 1: invariant @C01 entries: keyOK(segment) ==> forall k int :: {params[k]} 0 <= k && k < len(params) ==> (params[k].end == -1 ==> i >= len(segment) && k == len(params) - 1) && (params[k].end != -1 ==> 0 < params[k].end && params[k].end <= len(segment) && params[k].end <= i && cnt(segment, params[k].end) == k + 1)
 
-//@ func newNodeFromRef props C03,C05,C02 partial
+//@ func newNodeFromRef props C03,C05,C02
 //@   ensures result != nil && fresh(result) && same(result.key, key) && result.route == route && result.children == children && result.childKeys == childKeys && result.paramChildIndex == paramChildIndex && result.wildcardChildIndex == wildcardChildIndex
 //@   ensures @C01 params-ok: keyOK(key) ==> paramsOK(key, result.params)
+//@   loop 1: invariant -1 <= rangeindex && rangeindex < len(params) && (forall k int :: {params[k]} 0 <= k && k < len(params) ==> params[k].end == -1 || (0 < params[k].end && params[k].end < len(key)))
 
 //@ -- newNode sorts `children` in place: the caller must own that array (frame obligation at the call site)
-//@ func newNode props C03,C05,C02 partial
+//@ func newNode props C03,C05,C02
+//@   -- every child exists and has a non-empty key (its first byte becomes the edge label)
+//@   requires safety-children: forall i int :: {children[i]} 0 <= i && i < len(children) ==> children[i] != nil && len(children[i].key) > 0
 //@   modifies elems(children)
+//@   ensures @C01 edge-labels: forall i int :: {result.childKeys[i]} 0 <= i && i < len(children) ==> result.childKeys[i] == children[i].key[0]
+//@   loop 1: invariant children-ok: forall i int :: {children[i]} 0 <= i && i < len(children) ==> children[i] != nil && len(children[i].key) > 0
+//@   loop 1: invariant labels: len(childKeys) == len(children) && fresh(childKeys) && forall i int :: {childKeys[i]} 0 <= i && i <= rangeindex ==> childKeys[i] == children[i].key[0]
 //@   ensures result != nil && fresh(result) && same(result.key, key) && result.route == route && result.children == children && len(result.childKeys) == len(children) && (len(children) > 0 ==> fresh(result.childKeys))
 //@   ensures @C01 index-ranges: -1 <= result.paramChildIndex && result.paramChildIndex < len(children) && -1 <= result.wildcardChildIndex && result.wildcardChildIndex < len(children)
 //@   ensures @C01 params-ok: keyOK(key) ==> paramsOK(key, result.params)
@@ -53,8 +62,12 @@ package fox
 //@   ensures len(result) == len(n.children) && cap(result) == len(result) && (len(result) > 0 ==> fresh(result))
 //@   ensures forall i int :: {result[i]} 0 <= i && i < len(n.children) ==> result[i] == n.children[i]
 
-//@ func recreateParentEdge props C03,C05 partial
+//@ func recreateParentEdge props C03,C05
 //@   requires safety-parent: parent != nil && len(parent.children) >= 1
+//@   -- the node to leave out is one of the parent's children (otherwise the copy overflows)
+//@   requires safety-child: exists k int :: 0 <= k && k < len(parent.children) && parent.children[k] == matched
+//@   loop 1: invariant 0 <= i && i <= len(parent.children) && 0 <= added && added <= i && len(parentEdges) == len(parent.children) - 1 && fresh(parentEdges)
+//@   loop 1: invariant skipped: added <= i - 1 || (added == i && forall j int :: {parent.children[j]} 0 <= j && j < i ==> parent.children[j] != matched)
 //@   ensures len(result) == len(parent.children) - 1 && cap(result) == len(result) && (len(result) > 0 ==> fresh(result))
 
 //@ func (*node).isLeaf props C02,C03
@@ -68,9 +81,10 @@ package fox
 //@   ensures result != nil ==> exists i int :: 0 <= i && i < len(n.children) && result == n.children[i]
 
 //@ -- updateEdge overwrites one slot of n.children: n's children array must be owned by the writer
-//@ func (*node).updateEdge props C03,C05 partial
+//@ func (*node).updateEdge props C03,C05
 //@   requires safety-nil: n != nil && node != nil
-//@   requires safety-found: len(n.children) > 0
+//@   -- the internal-error panics are unreachable: n has an edge for the first byte of the new child's key
+//@   requires safety-found: len(node.key) > 0 && len(n.childKeys) == len(n.children) && (exists i int :: 0 <= i && i < len(n.childKeys) && n.childKeys[i] == node.key[0])
 //@   requires safety-sorted: len(n.children) > 50 ==> sortedBytes(n.childKeys)
 //@   modifies elems(n.children)
 
@@ -105,12 +119,14 @@ package fox
 //@   requires t != nil
 //@   modifies t.root
 //@   ensures fresh(t.root) && len(t.root) == old(len(t.root)) + 1
-//@ func (*tXn).updateRoot props C03,C05,C02 partial
+//@ func (*tXn).updateRoot props C03,C05,C02
 //@   requires t != nil && n != nil
+//@   requires safety-roots: len(t.root) >= verb && (forall j int :: {t.root[j]} 0 <= j && j < len(t.root) ==> t.root[j] != nil)
 //@   modifies t.root
 //@   ensures t.root == old(t.root) || (fresh(t.root) && len(t.root) == old(len(t.root)))
-//@ func (*tXn).removeRoot props C03,C05,C02 partial
+//@ func (*tXn).removeRoot props C03,C05,C02
 //@   requires t != nil
+//@   requires safety-roots: len(t.root) >= verb && (forall j int :: {t.root[j]} 0 <= j && j < len(t.root) ==> t.root[j] != nil)
 //@   modifies t.root
 //@   ensures t.root == old(t.root) || fresh(t.root)
 
@@ -122,9 +138,13 @@ package fox
 //@   ensures cache: cacheOK(t) && t.writable != nil
 //@   ensures owned: (result.p == nil || ownedNode(result.p)) && (result.pp == nil || ownedNode(result.pp)) && (result.ppp == nil || ownedNode(result.ppp))
 //@   ensures found: result.matched != nil && same(result.path, path) && (result.matched != rootNode ==> result.p != nil)
+//@   -- the counters classify() reads are within the path and within the key of the node found
+//@   ensures @C02 bounds: 0 <= result.charsMatched && result.charsMatched <= len(path) && 0 <= result.charsMatchedInNodeFound && result.charsMatchedInNodeFound <= len(result.matched.key)
 //@   ensures roots: t.root == old(t.root) || (fresh(t.root) && len(t.root) == old(len(t.root)))
 //@   loop 1: invariant current != nil && (current != rootNode ==> p != nil) && t.writable != nil
 //@   loop 1: invariant cacheOK(t)
+//@   loop 1: invariant @C02 bounds: 0 <= charsMatched && charsMatched <= len(path) && 0 <= charsMatchedInNodeFound && charsMatchedInNodeFound <= len(current.key)
+//@   loop 2: invariant @C02 bounds: current != nil && 0 <= charsMatched && charsMatched <= len(path) && 0 <= i && i == charsMatchedInNodeFound && charsMatchedInNodeFound <= len(current.key)
 //@   loop 1: invariant (p == nil || ownedNode(p)) && (pp == nil || ownedNode(pp)) && (ppp == nil || ownedNode(ppp))
 //@   loop 1: invariant t.root == old(t.root) || (fresh(t.root) && len(t.root) == old(len(t.root)))
 
@@ -136,7 +156,9 @@ package fox
 //@   loop 1: invariant forall j int :: {k1[j]} 0 <= j && j < i ==> k1[j] == k2[j]
 //@   loop 1: decreases minLength - i
 
-//@ func (searchResult).classify props C02 partial
+//@ func (searchResult).classify props C02
+//@   -- the internal-error panic is unreachable for a result whose counters are within the path and the key
+//@   requires result-ok: r.matched != nil && 0 <= r.charsMatched && r.charsMatched <= len(r.path) && 0 <= r.charsMatchedInNodeFound && r.charsMatchedInNodeFound <= len(r.matched.key)
 //@   ensures exact: result == exactMatch <==> (r.charsMatched == len(r.path) && r.charsMatchedInNodeFound == len(r.matched.key))
 //@   ensures range: result == exactMatch || result == incompleteMatchToEndOfEdge || result == incompleteMatchToMiddleOfEdge || result == keyEndMidEdge
 
